@@ -106,6 +106,8 @@ func Load(dir string, extraEnv []string, buildFlags []string) (*Prog, error) {
 	prog.Build()
 	P := &Prog{RepoDir: dir, Pkgs: repo, AllPkgs: all, SSA: prog, fnByName: map[string]*ssa.Function{},
 		fileOf: map[*ast.File]*packages.Package{}, domCache: map[*ssa.Function]*domInfo{}}
+	theProg = P
+	helperCtx = map[*ssa.Function]*ssa.Call{}
 	if len(repo) > 0 {
 		P.Fset = repo[0].Fset
 	}
@@ -273,10 +275,34 @@ func AnonIn(fn *ssa.Function) []*ssa.Function {
 }
 
 // Instrs iterates over all instructions of fn.
-func Instrs(fn *ssa.Function, f func(in ssa.Instruction)) {
+// InstrsRaw visits the instructions of fn itself.
+func InstrsRaw(fn *ssa.Function, f func(in ssa.Instruction)) {
 	for _, b := range fn.Blocks {
 		for _, in := range b.Instrs {
 			f(in)
+		}
+	}
+}
+
+// Instrs visits the instructions of fn and — virtual inlining — of every helper introduced by a refactoring
+// (a repo function absent from the pinned tree) that fn calls statically, in place, recording the call site as the
+// helper's current context (see helperctx.go). On the pinned tree it is identical to InstrsRaw.
+func Instrs(fn *ssa.Function, f func(in ssa.Instruction)) {
+	instrsFlat(fn, f, 0, map[*ssa.Function]bool{fn: true})
+}
+
+func instrsFlat(fn *ssa.Function, f func(in ssa.Instruction), depth int, on map[*ssa.Function]bool) {
+	for _, b := range fn.Blocks {
+		for _, in := range b.Instrs {
+			f(in)
+			if c, ok := in.(*ssa.Call); ok && depth < 3 {
+				if h := staticCallee(&c.Call); h != nil && !on[h] && isNewHelperFn(h) {
+					setHelperCtx(h, c)
+					on[h] = true
+					instrsFlat(h, f, depth+1, on)
+					delete(on, h)
+				}
+			}
 		}
 	}
 }
